@@ -5,6 +5,7 @@ import (
 	"encoding/hex"
 	"encoding/json"
 	"fmt"
+	"math/rand/v2"
 	"os"
 	"sort"
 	"strings"
@@ -118,6 +119,7 @@ func hashScenario(sc *Scenario) string {
 
 func (c *check) RunCase(seed int64, index int, tier string, env *run.Env) run.CaseResult {
 	sc := Generate(seed, index, tier)
+	sc.Tier = tier
 	return RunScenario(sc, env)
 }
 
@@ -195,6 +197,12 @@ func RunScenario(sc *Scenario, env *run.Env) run.CaseResult {
 
 	// (d) foreign fields
 	flog := cr.playForeign()
+
+	// (e) a transient API write failure followed by retries ends in the same state
+	cr.playFaults(runs[0])
+
+	// (f) the workload is deleted and re-created under the same name while pods of the first incarnation still exist
+	cr.playRecreate(runs[0])
 
 	res.Counters = cr.counters
 	res.NonTrivial = len(sc.Pods) >= 2 && len(runs) >= 2 && cr.okRecs >= 2
@@ -623,3 +631,224 @@ func (cr *caseRun) playForeign() []string {
 
 var _ = metav1.ObjectMeta{}
 var _ = v1.Pod{}
+
+// ------------------------------------------------------------------------------------------ (e) transient write faults
+
+// faultPoints: which mutating calls of order 0 are rejected (one run each): all of them in the thorough tier, up to
+// three PRNG-chosen ones otherwise.
+func (cr *caseRun) faultPoints(n int) []int {
+	var all []int
+	for k := 1; k <= n; k++ {
+		all = append(all, k)
+	}
+	if cr.sc.Tier == "thorough" || n <= 3 {
+		return all
+	}
+	r := rand.New(rand.NewPCG(uint64(cr.sc.Seed), uint64(cr.sc.Index)*7919+181))
+	r.Shuffle(len(all), func(i, j int) { all[i], all[j] = all[j], all[i] })
+	out := all[:3]
+	sort.Ints(out)
+	return out
+}
+
+// playFaults replays order 0 on a fresh store with the k-th mutating call rejected once (server timeout, not applied).
+// The controller retries a failed reconcile, so every pod is then reconciled until the content is stable. The final
+// PodGroups and pod assignments must equal those of the fault-free run: they depend only on the workload, not on how
+// often or with which interruptions its pods were reconciled.
+func (cr *caseRun) playFaults(base OrderRun) {
+	if base.Final == nil || !base.Converged || base.WritesDuring == 0 || len(base.Errors) > 0 {
+		return
+	}
+	for _, k := range cr.faultPoints(base.WritesDuring) {
+		w, err := newWorld(cr.sc)
+		if err != nil {
+			return
+		}
+		w.failAt = k
+		for _, i := range base.Order {
+			cr.doReconcile(w, i, nil)
+		}
+		if w.failed == nil {
+			cr.inc("fault_runs_fault_not_reached", 1)
+			continue
+		}
+		cr.inc("fault_runs", 1)
+		cr.inc("fault_at:"+w.failed.Verb+"-"+strings.ToLower(w.failed.Kind), 1)
+		var st *State
+		cur := ""
+		converged := false
+		for pass := 1; pass <= maxConvergePasses+1; pass++ {
+			for i := range cr.sc.Pods {
+				cr.doReconcile(w, i, nil)
+			}
+			if st, err = w.state(); err != nil {
+				return
+			}
+			if k := st.key(); k == cur {
+				converged = true
+				break
+			} else {
+				cur = k
+			}
+		}
+		if !converged {
+			cr.viol("fault-independence", "no-convergence-after-fault:"+cr.sc.Kind, "%s (%s): after %s was rejected once, the content still changes after %d passes", cr.sc.Kind, cr.sc.Detail, *w.failed, maxConvergePasses+1)
+			continue
+		}
+		fields, details := diffStates(base.Final, st)
+		for _, f := range fields {
+			cr.viol("fault-independence", "fault-dependence:"+f+":"+w.failed.Verb+"-"+strings.ToLower(w.failed.Kind)+":"+cr.sc.Kind,
+				"%s (%s): mutating call #%d of order %v (%s) was rejected once with a server timeout and every pod was reconciled again until nothing changed; the final state (second value) differs from the fault-free run (first value) in %s: %s",
+				cr.sc.Kind, cr.sc.Detail, k, base.Order, *w.failed, f, details[f])
+		}
+	}
+}
+
+// ------------------------------------------------------------------------------------------ (f) re-created workload
+
+// playRecreate: after order 0, every object of the owner chain is deleted and created again under the same name with
+// a new UID (kubectl delete + apply), together with a new generation of pods; the pods of the first incarnation still
+// exist (terminating with a grace period, or orphaned) and are reconciled again, before or after the new ones. Pods
+// of different incarnations have different top-level owners: no PodGroup may hold pods of both, and a pod of the first
+// incarnation keeps the assignment it had.
+func (cr *caseRun) playRecreate(base OrderRun) {
+	sc := cr.sc
+	if base.Final == nil || len(base.Errors) > 0 || len(sc.Objects) == 0 {
+		return
+	}
+	// only chains in which every pod has an owner that is part of the scenario
+	uids := map[string]bool{}
+	for _, o := range sc.Objects {
+		uids[uidOf(o)] = true
+	}
+	for _, p := range sc.Pods {
+		refs, _ := p["metadata"].(Obj)["ownerReferences"].([]any)
+		if len(refs) == 0 {
+			return
+		}
+		for _, r := range refs {
+			if u, _ := r.(Obj)["uid"].(string); !uids[u] {
+				return
+			}
+		}
+	}
+	w, err := newWorld(sc)
+	if err != nil {
+		return
+	}
+	for _, i := range base.Order {
+		cr.doReconcile(w, i, nil)
+	}
+	before, err := w.state()
+	if err != nil {
+		return
+	}
+	// new incarnation: same names, new UIDs
+	newUID := map[string]string{}
+	for _, o := range sc.Objects {
+		if o["kind"] == "ConfigMap" || o["kind"] == "PriorityClass" {
+			continue
+		}
+		newUID[uidOf(o)] = uidOf(o) + "-v2"
+	}
+	remap := func(o Obj) Obj {
+		b, _ := json.Marshal(o)
+		s := string(b)
+		for old, nu := range newUID {
+			s = strings.ReplaceAll(s, `"`+old+`"`, `"`+nu+`"`)
+		}
+		var out Obj
+		_ = json.Unmarshal([]byte(s), &out)
+		return out
+	}
+	for _, o := range sc.Objects {
+		if _, ok := newUID[uidOf(o)]; !ok {
+			continue
+		}
+		u, err := toUnstructured(o)
+		if err != nil {
+			return
+		}
+		if err := w.raw.Delete(w.ctx, u); err != nil {
+			return
+		}
+		nu, err := toUnstructured(remap(o))
+		if err != nil {
+			return
+		}
+		nu.SetResourceVersion("")
+		if err := w.raw.Create(w.ctx, nu); err != nil {
+			cr.inc("recreate_harness_errors", 1)
+			return
+		}
+	}
+	var newPods []string
+	for _, p := range sc.Pods {
+		np := remap(p)
+		md := np["metadata"].(Obj)
+		md["name"] = md["name"].(string) + "-v2"
+		md["uid"] = md["uid"].(string) + "-v2"
+		delete(md, "resourceVersion")
+		if ann, ok := md["annotations"].(Obj); ok {
+			delete(ann, "pod-group-name")
+		}
+		u, err := toUnstructured(np)
+		if err != nil {
+			return
+		}
+		if err := w.raw.Create(w.ctx, u); err != nil {
+			cr.inc("recreate_harness_errors", 1)
+			return
+		}
+		newPods = append(newPods, md["name"].(string))
+	}
+	// reconcile old and new pods, old first in half of the cases, twice
+	var names []string
+	for _, p := range sc.Pods {
+		names = append(names, nameOf(p))
+	}
+	oldFirst := (sc.Index/2)%2 == 0
+	seq := append(append([]string{}, newPods...), names...)
+	if oldFirst {
+		seq = append(append([]string{}, names...), newPods...)
+	}
+	for round := 0; round < 2; round++ {
+		for _, n := range seq {
+			_, e := w.reconcileName(n)
+			cr.inc("recreate_reconciles", 1)
+			if e != "" {
+				cr.inc("recreate_reconcile_errors", 1)
+			}
+		}
+	}
+	cr.inc("recreate_runs", 1)
+	// oracle
+	assign := func(name string) string {
+		var p v1.Pod
+		if err := w.raw.Get(w.ctx, types.NamespacedName{Namespace: ns, Name: name}, &p); err != nil {
+			return "?"
+		}
+		return p.Annotations["pod-group-name"]
+	}
+	newGroups := map[string]string{}
+	for _, n := range newPods {
+		if g := assign(n); g != "" {
+			newGroups[g] = n
+		}
+	}
+	order := "new-pods-first"
+	if oldFirst {
+		order = "old-pods-first"
+	}
+	for _, n := range names {
+		g := assign(n)
+		if was := before.Pods[n][0]; was != "" && g != was {
+			cr.viol("recreated-owner", "old-pod-reassigned:"+sc.Kind+":"+order, "%s (%s): the workload was deleted and re-created under the same name (new UIDs); pod %s of the first incarnation was in PodGroup %q and is now assigned to %q",
+				sc.Kind, sc.Detail, n, was, g)
+		}
+		if other, shared := newGroups[g]; shared && g != "" {
+			cr.viol("recreated-owner", "incarnations-share-podgroup:"+sc.Kind+":"+order, "%s (%s): the workload was deleted and re-created under the same name (new UIDs); pod %s of the first incarnation and pod %s of the new one are both assigned to PodGroup %q although their top-level owners differ",
+				sc.Kind, sc.Detail, n, other, g)
+		}
+	}
+}
